@@ -394,11 +394,78 @@ def replay(payload):
     return True, payload["signature"]
 
 
+# ------------------------------------------------------------------ crash-point enumeration of one builder call
+def crashpoint_sweep(seed, run, max_steps=400):
+    """COMPLETE enumeration, for one builder call of one run, of every LINE step of that call as the point where an
+    asynchronous exception is injected: the failed call may return nothing, but the receiver, its by-reference
+    arguments and every other live object must equal their linear rebuild afterwards."""
+    L = lib.get()
+    program, knobs, env, g, discard, rng = build_program(seed, run, overrides={"autoalias": False})
+    if discard:
+        return None
+    st = knobs["share_tables"]
+    rr = random.Random(gen.derive_seed(seed, run, 0x5EE9))
+    cands = [j for j, op in enumerate(program) if op["op"] in ("call", "join") and j <= 14
+             and not isinstance(env.heap[j], lang.Skipped)]
+    if not cands:
+        return None
+    byref = [j for j in cands if len(lang.op_deps(program[j])) >= 2]
+    pool = byref if (byref and rr.random() < 0.7) else cands
+    j = pool[rr.randrange(len(pool))]
+    sub = program[: j + 1]
+    op_len, _ = sched.measure(sub, st)
+    steps = op_len.get(j, 0)
+    if steps < 2 or steps > max_steps:
+        return None
+    okw = {"ctx_names": sorted(rr.sample(L.CTX_NAMES, 2)), "light": True}
+    refs = {i: engine.reference_obs(sub, i, st, **okw) for i in range(j)}
+    viol = []
+    fired = 0
+    for sstep in range(1, steps + 1):
+        plan = {"gran": "LINE", "assign": {str(i): 0 for i in range(len(sub))}, "mean_q": 1 << 20, "stall": None,
+                "faults": [{"op": j, "step": sstep, "kind": "async_exc"}], "start": j}
+        env2, sim, _ = run_sim(sub, st, plan, trace=[])
+        fired += sim.fired.get("async_exc", 0)
+        for i in range(j):
+            v = env2.heap[i]
+            if isinstance(v, (lang.Skipped, lang.Value, engine.MutableAlias)):
+                continue
+            a = engine.slot_obs(env2, i, **okw)
+            d = obs.diff(a, refs[i])
+            if d:
+                sig = f"{PROP}:fault:{receiver_label(sub, env2, j)}"
+                viol.append((sig, {"property": PROP, "config": "seq-fault", "seed": seed, "run": run, "share_tables": st,
+                                   "program": sub, "victim": i, "okw": okw, "plan": plan, "trace": [],
+                                   "signature": sig, "differs_on": d[:8], "found_by": "crash-point sweep",
+                                   "observed": {k: a.get(k) for k in d[:2]}, "expected": {k: refs[i].get(k) for k in d[:2]}},
+                             run))
+                break
+        if viol:
+            break
+    return {"steps": steps, "fired": fired, "violations": viol}
+
+
 # ------------------------------------------------------------------ batch (one worker task)
 def batch(task):
     lib.get()
     seed, lo, hi = task["seed"], task["lo"], task["hi"]
     agg = new_agg()
+    nsweep = 4 if task.get("tier") == "thorough" else 1
+    done = 0
+    for run in range(lo, hi):
+        if done >= nsweep:
+            break
+        try:
+            sw = runner.guarded(crashpoint_sweep, 120, seed, run)
+        except (runner.RunTimeout, lang.HarnessError) as e:
+            agg["harness"].append({"run": run, "why": "sweep: " + repr(e)[:200]})
+            break
+        if sw is not None:
+            done += 1
+            agg["sweeps"] += 1
+            agg["crashpoints"] += sw["steps"]
+            agg["fired"]["async_exc_crashpoint_sweep"] += sw["fired"]
+            agg["violations"].extend(sw["violations"])
     for run in range(lo, hi):
         try:
             res, program = runner.guarded(one_run, 120, seed, run, force_config=task.get("config"), overrides=task.get("overrides"))
@@ -417,7 +484,7 @@ def new_agg():
             "uncovered": set(), "steps": 0, "switches": 0, "fired": collections.Counter(), "overlap": 0,
             "shapes": set(), "branching_shapes": set(), "methods": collections.Counter(),
             "configs": collections.Counter(), "samples": [], "schedules": set(), "preempt_in_lib": 0,
-            "skipped_after_fault": 0, "fault_runs": 0}
+            "skipped_after_fault": 0, "fault_runs": 0, "sweeps": 0, "crashpoints": 0}
 
 
 def fold(agg, res, program):
@@ -511,6 +578,8 @@ def evidence(agg, tier, seed, wall):
         "distinct_interleavings_by_schedule_hash": len(agg["schedules"]),
         "faults_fired": dict(agg["fired"]),
         "runs_with_a_fired_fault": agg["fault_runs"],
+        "complete_crashpoint_sweeps_of_one_builder_call": agg["sweeps"],
+        "crash_points_enumerated_in_those_sweeps": agg["crashpoints"],
         "ops_skipped_after_a_fault": agg["skipped_after_fault"],
         "discarded_runs_autoalias_on_shared_object": agg["discards"],
         "render_interference_not_C01": agg["interference"],
